@@ -146,20 +146,20 @@ EXPORT char *_gets_s_chk(char *restrict dest, rsize_t dmax,
     }
 
     errno = 0;
-    ret = fgets(dest, dmax + 1, stdin);
+    /* fgets stores at most dmax-1 characters and the terminator */
+    ret = fgets(dest, dmax, stdin);
 
     if (likely(ret)) {
         rsize_t len = (rsize_t)strnlen(dest, dmax);
         if (len > 0 && dest[len - 1] == '\n') {
             dest[len - 1] = 0;
-        } else if (len > (rsize_t)(dmax - 1)) {
-            ret = NULL;
-            goto nospc;
-        } else if (feof(stdin)) /* dead code: feof returns NULL */
-            ;
-        else if (len == (rsize_t)(dmax - 1) && dest[len] == '\0') {
-            ret = NULL;
-            goto nospc;
+        } else if (len == (rsize_t)(dmax - 1) && !feof(stdin)) {
+            /* dest is full: the line fits only if it ends right here */
+            int c = getc(stdin);
+            if (c != '\n' && c != EOF) {
+                ret = NULL;
+                goto nospc;
+            }
         }
     } else {
         if (!feof(stdin) && errno == 0) { /* closed? */
